@@ -73,9 +73,44 @@ def changes():
     return out
 
 
+def run_parallel(args, jobs):
+    """split the list of changes over `jobs` worker processes, each with its own scratch directory, and merge their results"""
+    rest = [a for a in args if not a.startswith("--jobs")]
+    procs = []
+    for i in range(jobs):
+        out = os.path.join("/tmp", f"verif-selftest-part{i}.json")
+        if os.path.exists(out):
+            os.remove(out)
+        env = dict(os.environ, VERIF_SELFTEST_DIR=f"{SCRATCH}-{i}")
+        procs.append((out, subprocess.Popen([sys.executable, os.path.join(B.ENGINE, "check.py"), "selftest", f"--part={i}/{jobs}", f"--out={out}"] + rest, env=env)))
+    results, ok_all = [], True
+    for out, pr in procs:
+        rc = pr.wait()
+        if rc not in (0, 1) or not os.path.exists(out):
+            print(f"selftest worker failed (exit {rc})")
+            return 2
+        d = json.load(open(out))
+        results += d["results"]
+        ok_all = ok_all and d["all_detected"]
+        os.remove(out)
+    order = {name: k for k, (name, _, _) in enumerate(changes())}
+    results.sort(key=lambda r: order.get(r["change"], 1 << 30))
+    with open(os.path.join(B.ROOT, "selftest-results.json"), "w") as fh:
+        json.dump({"results": results, "all_detected": ok_all}, fh, indent=1)
+    print("selftest:", "all changes detected" if ok_all else "SOME CHANGES NOT DETECTED")
+    return 0 if ok_all else 1
+
+
 def main(args):
+    jobs = [a for a in args if a.startswith("--jobs=")]
+    if jobs:
+        return run_parallel(args, int(jobs[0].split("=")[1]))
     only = set(a for a in args if not a.startswith("--"))
     skip_suite = "--skip-suite" in args
+    part = [a for a in args if a.startswith("--part=")]
+    part = tuple(int(x) for x in part[0].split("=")[1].split("/")) if part else None
+    outp = [a for a in args if a.startswith("--out=")]
+    outp = outp[0].split("=", 1)[1] if outp else os.path.join(B.ROOT, "selftest-results.json")
     repo_src = "/repo"
     os.makedirs(SCRATCH, exist_ok=True)
     results = []
@@ -83,8 +118,10 @@ def main(args):
     env.update({"VERIF_WORK": os.path.join(SCRATCH, "work"), "VERIF_TARGET": os.path.join(SCRATCH, "target"), "VERIF_NOLOCK": "1", "VERIF_EVIDENCE": os.path.join(SCRATCH, "evidence"), "VERIF_REPLAYS": os.path.join(SCRATCH, "replays"),
                 "CARGO_NET_OFFLINE": "true"})
     ok_all = True
-    for name, kind, path in changes():
+    for k, (name, kind, path) in enumerate(changes()):
         if only and name not in only:
+            continue
+        if part and k % part[1] != part[0]:
             continue
         t0 = time.time()
         copy = os.path.join(SCRATCH, "repo")
@@ -124,7 +161,7 @@ def main(args):
         shutil.rmtree(copy, ignore_errors=True)
     # restore: evidence files were rewritten by runs against the scratch copy; they are regenerated by the next real run
     shutil.rmtree(SCRATCH, ignore_errors=True)
-    with open(os.path.join(B.ROOT, "selftest-results.json"), "w") as fh:
+    with open(outp, "w") as fh:
         json.dump({"results": results, "all_detected": ok_all}, fh, indent=1)
     print("selftest:", "all changes detected" if ok_all else "SOME CHANGES NOT DETECTED")
     return 0 if ok_all else 1
